@@ -180,7 +180,8 @@ def make_agent(cfg: Dict[str, Any], index: int = 0, hp=None, seed: int = 0):
     kw: Dict[str, Any] = {"index": index, "hp_config": hp, "net_config": copy.deepcopy(nc), "batch_size": cfg["batch_size"]}
     if algo in ("DDPG", "TD3", "MADDPG", "MATD3"):
         kw["lr_actor"] = cfg["lr"]
-        kw["lr_critic"] = cfg["lr"] * 2
+        # "same_lr": both learning rates are the very same float object, as in Algo(lr_actor=x, lr_critic=x)
+        kw["lr_critic"] = kw["lr_actor"] if cfg.get("same_lr") else cfg["lr"] * 2
     else:
         kw["lr"] = cfg["lr"]
     for k in ("tau", "gamma", "policy_freq", "double", "share_encoders", "lamb", "n_step", "combined_reward"):
